@@ -1,23 +1,24 @@
 #!/bin/sh
-# Applies every seeded change in /verif/seeded to /repo in turn, runs the quick check of the property
-# it breaks (and of the check recorded as catching it, if different), and reverts.  Prints one line each.
-# usage: tools/run_seeded.sh [tier]        (never run concurrently with other checks: it edits /repo)
-T="${1:-quick}"
-cd /repo || exit 2
-git diff --quiet || { echo "/repo has uncommitted changes"; exit 2; }
-for d in /verif/seeded/*/; do
+# Applies every seeded change in /verif/seeded in turn to a SCRATCH worktree of /repo's HEAD (so /repo itself
+# is never touched), runs the recorded check(s) against that tree (PYMC_REPO) and reverts.  One line each.
+# usage: tools/run_seeded.sh [tier] [id-prefix]
+T="${1:-quick}"; PFX="${2:-}"
+W=/var/tmp/pymc_seed_wt_$$
+git -C /repo worktree add --detach "$W" HEAD -q || exit 2
+trap 'git -C /repo worktree remove --force "$W"' EXIT INT TERM
+for d in /verif/seeded/${PFX}*/; do
   id=$(basename "$d")
   prop=$(python3 -c "import json;print(json.load(open('$d/meta.json'))['breaks_property'])")
-  by=$(python3 -c "import json,re;m=json.load(open('$d/meta.json'))['caught_by'];print(' '.join(sorted(set(re.findall(r'C\d\d', m)))))")
+  by=$(python3 -c "import json,re;m=json.load(open('$d/meta.json'))['caught_by'];print(' '.join(sorted(set(re.findall(r'C[0-9][0-9]', m)))))")
+  cd "$W"
   if ! git apply --check "$d/patch.diff" 2>/dev/null; then echo "$id: PATCH DOES NOT APPLY to current HEAD"; continue; fi
   git apply "$d/patch.diff"
   res=""
   for c in $by; do
-    cd /verif && ./check "$c" --tier "$T" > /tmp/seeded_$id.$c.log 2>&1; rc=$?
+    cd /verif && PYMC_REPO="$W" PYMC_VERIF_NOEVIDENCE=1 ./check "$c" --tier "$T" > /tmp/seeded_$id.$c.log 2>&1; rc=$?
     n=$(grep -c "^VIOLATION" /tmp/seeded_$id.$c.log)
     res="$res $c:exit=$rc,violations=$n"
-    cd /repo
   done
-  git checkout -- .
+  cd "$W" && git checkout -- .
   echo "$id breaks=$prop ->$res"
 done
